@@ -327,8 +327,11 @@ def check_group(crys, nosym=False, completeness=True):
         gi = ops[a].inv()
         e = ops[a] * gi
         ki = op_key(gi.rot, gi.trans, flat_perm(crys, gi))
-        if op_key(e.rot, e.trans, flat_perm(crys, e)) != idk or not np.allclose(e.cartrot, np.eye(dim), atol=ALG):
-            fails.append(('inv', desc(a), 'g * g.inv() is not the identity')); break
+        e2 = gi * ops[a]
+        # exact identity as a map (not only modulo lattice translations): the inverse of x -> R x + t is x -> R^-1 x - R^-1 t
+        if any(op_key(x.rot, x.trans, flat_perm(crys, x)) != idk or not np.allclose(x.cartrot, np.eye(dim), atol=ALG)
+               or not np.allclose(x.trans, 0, atol=ALG) for x in (e, e2)):
+            fails.append(('inv', desc(a), 'g * g.inv() or g.inv() * g is not the identity map')); break
         if ki not in keyset:
             fails.append(('inverse', desc(a), 'g.inv() is not in G modulo lattice translations')); break
     info['nmul'] = nmul
